@@ -102,4 +102,24 @@ PROPS = {
             {"name": "enum2x2", "test": "TestEnum_C20", "kind": "plain", "tiers": ["thorough"], "env": {"VERIF_ENUM": "1", "VERIF_ENUM_LEN": "2"}},
         ],
     },
+    "C09": {
+        "manifest": {
+            "text": "real SQLite WALs x structured mutations (truncation, bit flips, frame dup/swap, stale-generation tails, salt edits, commit-field edits with recomputed checksums, byte-order re-encoding) x entry point (full / resume from a committed offset / byte budget); WALReader results compared with an independent decoder that is itself validated against real SQLite recovery; thorough adds a native coverage-guided fuzz campaign",
+            "note": "reference decoder written from the SQLite file-format document; commit-field edits keep SQLite's invariant commit >= pgno of the commit frame; recomputed checksums never legitimise an invalid header (see DESIGN section 6)",
+            "technique": "property-based testing (rapid) + native go fuzzing, differential against an independent reference decoder",
+        },
+        "binary": "props",
+        "level": "exploration",
+        "rule": ("corpus of 35 real WALs (page sizes 512/1024/4096/8192/65536; shapes: several commits, checkpoint+restart with a stale tail of the "
+                 "previous generation, spilled uncommitted tail, after rollback, grow-shrink, grow-shrink-grow) x 0-3 mutations x call in "
+                 "{PageMap from the header, NewWALReaderWithOffset at a committed boundary of the valid prefix, pageMap with a byte budget "
+                 "from {1B, 1..5 frames, total+-1 frame, frame+-1B}}; ReadFrame is additionally compared frame by frame. Non-trivial = the "
+                 "input has >=1 committed frame and >=1 rejected frame or trailing garbage; distinct = hash of (mutated prefix, length, call, offsets)."),
+        "assumptions": ["mutations named in the property only; frames with page number 0 or impossible page sizes but valid checksums are not generated"],
+        "runs": [
+            {"name": "corpus-identity", "test": "TestCorpus_C09", "kind": "plain", "shards": 1},
+            {"name": "mutations", "test": "TestProp_C09", "kind": "rapid", "checks_quick": 60000, "checks_thorough": 1500000},
+            {"name": "nativefuzz", "test": "FuzzC09", "kind": "fuzz", "tiers": ["thorough"], "shards": 1, "fuzztime_thorough": "600s", "cwd": "/verif/harness/props", "timeout_thorough": 1200},
+        ],
+    },
 }
